@@ -96,8 +96,8 @@ func runTArith(m *model.Model, s *ob.Set, alias bool) {
 		name string
 		b    []int
 	}
-	precSets2 := [][]int64{{10, 10, 10}, {5, 10, 10}, {0, 10, 7}, {0, 7, 10}}
-	precSets3 := [][]int64{{10, 10, 10, 10}, {5, 10, 10, 10}, {0, 7, 10, 8}, {0, 7, 8, 10}, {0, 10, 8, 7}}
+	precSets2 := [][]int64{{10, 10, 10}, {5, 10, 10}, {0, 10, 7}, {0, 7, 10}, {8, 7, 10}, {8, 10, 7}}
+	precSets3 := [][]int64{{10, 10, 10, 10}, {5, 10, 10, 10}, {0, 7, 10, 8}, {0, 7, 8, 10}, {0, 10, 8, 7}, {8, 7, 7, 10}, {8, 10, 10, 7}}
 	for _, op := range []string{"Add", "Sub", "Mul", "Quo"} {
 		fn := m.Lookup("(*Decimal)." + op)
 		binds := []binding{{"", []int{0, 1, 2}}}
@@ -347,6 +347,18 @@ func checkArithCase(m *model.Model, s *ob.Set, e enums, rule string, fn *ssa.Fun
 				}
 				if !azOK || az != e.exact {
 					fail(o, "an unrounded copy must be Exact")
+				}
+				// the copied operand may carry more digits than the receiver holds: then the copy
+				// must go through round (smaller precision => round; the converse is not required)
+				src := exp.operand + 1
+				if c.op == "FMA" {
+					src = 3 // operand 1 of the addition is u; operand 0 is the product (computed, hence rounded, by umul)
+					if exp.operand == 0 {
+						src = len(c.precs)
+					}
+				}
+				if src < len(c.precs) && !sameObj(objs[src], z) && pzEff < c.precs[src] {
+					fail(o, "the value of argument %d (prec %d) is copied into a receiver of prec %d without rounding", src, c.precs[src], pzEff)
 				}
 			} else {
 				// single rounding: among the calls of round on the receiver, only the last may run
